@@ -2512,7 +2512,8 @@ def crosstab(
                 [all_levels[lvl] for lvl in column_levels]
             )
 
-        table = table[[c for c in columns if c in table]]
+        # select by label: a plain list of boolean column labels would be taken as a row mask
+        table = table.reindex(columns=[c for c in columns if c in table.columns])
 
     return table
 
